@@ -193,6 +193,9 @@ def check(case) -> Outcome:
         except CaseTimeout:
             o.exclude("slow-scan")
             continue
+        except Exception as e:
+            o.exclude("scan-raised:" + type(e).__name__ + " (C01's business)")
+            continue
         found = None
         last = None
         for t in types:
